@@ -98,6 +98,10 @@ def contradicts(expect, obs):
                 why.append("lexer panicked on %r" % text)
             else:
                 why += check_lex(text, obs["raw_lines"])
+        elif e[0] == "first_cells_are":
+            got = [(c[0], c[1]) for c in obs.get("first_cells", [])]
+            if got != [tuple(x) for x in e[1]]:
+                why.append("first stack dump (top first) is %s, expected %s" % (got, e[1]))
         elif e[0] == "errors_equal":
             errs = obs.get("errors", [])
             a_, b_ = e[1]
